@@ -119,6 +119,16 @@ def M5():
     )
 
 
+def M5R():
+    """residual outflow of a junction feeds a second junction that is listed *before* it (execution order must come from the graph)"""
+    return dict(
+        name="M5R",
+        comps=[dict(name="a", default=100), dict(name="jb", junction="y"), dict(name="ja", junction="y", setup=True, default=20), dict(name="x", default=1), dict(name="y", default=2), dict(name="z", default=3)],
+        pars=[dict(name="aj", format="probability", default=0.4), dict(name="pax", format="proportion", default=0.3), dict(name="pby", format="proportion", default=0.6), dict(name="pbz", format="proportion", default=0.4), dict(name="back", format="rate", default=0.1)],
+        transitions={("a", "ja"): "aj", ("ja", "x"): "pax", ("ja", "jb"): ">", ("jb", "y"): "pby", ("jb", "z"): "pbz", ("x", "a"): "back", ("y", "a"): "back", ("z", "a"): "back"},
+    )
+
+
 def M6():
     """residual junction"""
     return dict(
@@ -184,4 +194,4 @@ def M12():
     )
 
 
-CATALOGUE = dict(M1=M1, M2=M2, M4=M4, M5=M5, M6=M6, M7=M7, M8=M8, M10=M10, M12=M12)
+CATALOGUE = dict(M1=M1, M2=M2, M4=M4, M5=M5, M5R=M5R, M6=M6, M7=M7, M8=M8, M10=M10, M12=M12)
